@@ -192,13 +192,13 @@ class PathInfo:
         return vals
 
 
-def explore(ctx, info, world, func, fault=False, max_while=2):
+def explore(ctx, info, world, func, fault=False, max_while=2, fixed_len=None):
     budget = (2 if ctx.tier == "thorough" else 1) if fault else 0
 
     def run(it, w):
         it.MAX_WHILE = 1 if fault else max_while
-        if fault:
-            it.generic_loop_fixed = 2
+        if fault or fixed_len is not None:
+            it.generic_loop_fixed = 2 if fixed_len is None else fixed_len
         r = w["robot"]
         return it.call(it.getattr(r, func), [], {})
 
@@ -226,8 +226,17 @@ def learn_shapes(ctx):
         return r
 
     seen = {}
+    filled = set()
+    uid0 = {k: v.uid for k, v in w["robot"].fields.items() if isinstance(v, ListOf)}
     for p in fn.all_paths(ctx, run, hooks=lambda: CreateHooks(info), world=w, max_paths=50000):
+        rob = p.world["robot"]
+        for k, u in uid0.items():
+            v = rob.fields.get(k)
+            if not isinstance(v, ListOf) or v.uid != u:
+                filled.add(k)  # start-up assigns a list of its own to this attribute
         for e in p.trace:
+            if e.kind in ("listof_append", "listof_extend") and e.name.startswith("robot."):
+                filled.add(e.name[len("robot."):])
             if e.kind == "listof_append" and e.name.startswith("robot."):
                 v = e.args[1]
                 k = e.name[len("robot."):]
@@ -252,6 +261,8 @@ def learn_shapes(ctx):
                     return o
                 return make
             shapes[k] = mk(kind[1], kind[2])
+    # lists that start-up never touches stay what the constructor made them: empty (per-robot caches and the like)
+    shapes["$filled"] = filled
     ctx._list_shapes = shapes
     return shapes
 
@@ -431,18 +442,29 @@ def show_key(k):
     return str(k)
 
 
-def analyse(ctx, funcs=robot.MODE_FUNCS, fault=False):
-    """-> list of (func, world, per_fields, PathInfo) with roles and mode presence attached"""
+def analyse(ctx, funcs=robot.MODE_FUNCS, fault=False, shared_class=False):
+    """-> list of (func, world, per_fields, PathInfo) with roles and mode presence attached.
+    shared_class: variant in which every element of every start-up list is an instance of one and the same user class
+    (two components of one class), lists of length 2, one loop iteration - for anything keyed by type(component)."""
     info, worlds = prepare(ctx)
     res = []
-    ws = worlds if not fault else worlds[-1:]
+    ws = worlds if not (fault or shared_class) else worlds[-1:]
+    if shared_class:
+        from ..closure import clone as _clone
+
+        w2 = _clone(ws[0][0])
+        for v in w2["robot"].fields.values():
+            if isinstance(v, ListOf):
+                v.shared_cls = Ext("SharedComponentClass", "user", role="class")
+                v.__dict__.pop("inst", None)
+        ws = [(w2, ws[0][1])]
     for w, per in ws:
         group = []
         for func in funcs:
-            pis = explore(ctx, info, w, func, fault=fault)
+            pis = explore(ctx, info, w, func, fault=fault, max_while=1 if shared_class else 2, fixed_len=2 if shared_class else None)
             group += [(func, pi) for pi in pis]
             ctx.add("paths", len(pis))
-            if not fault:
+            if not fault and not shared_class:
                 # second period: the same mode function entered again on the robot a first period left behind
                 reps = {}
                 for pi in pis:
